@@ -189,7 +189,7 @@ func specSizeOK(size int, lower int, upper int) bool {
 //@   ensures result.typ != tokenTypeDataItemSize ==> result1 == 0 && result2 == -1
 
 //@ func (*parser).parseASCII
-//@   property C05 C15
+//@   property C05 C15 C04
 //@   owns sml.parser, sml.lexer, sml.token, sml.parseError
 //@   maypanic
 //@   modifies p.tokenQueue, p.lexer, p.errors, p.variableNames, p.skipSizeCheck
@@ -238,7 +238,7 @@ func specSizeOK(size int, lower int, upper int) bool {
 //@   ensures item != nil
 
 //@ func (*parser).parseMessage
-//@   property C06 C19
+//@   property C06 C19 C04
 //@   owns sml.parser, sml.lexer, sml.token, sml.parseError
 //@   modifies p.tokenQueue, p.lexer, p.errors, p.warnings, p.variableNames, p.ellipsisCount, p.skipSizeCheck, p.messages
 //@   reset_first p.variableNames, p.ellipsisCount
@@ -253,7 +253,7 @@ func specSizeOK(size int, lower int, upper int) bool {
 //@   ensures true
 
 //@ func Parse
-//@   property C06 C19 C11
+//@   property C06 C19 C11 C04
 //@   owns sml.parser, sml.lexer, sml.token, sml.parseError, map[string]bool
 //@   ensures len(errors) > 0 ==> len(messages) == 0
 //@   ensures fresh(errors) && fresh(warnings)
@@ -304,7 +304,7 @@ func specSizeOK(size int, lower int, upper int) bool {
 //@   ensures sent(l.tokens) == old(sent(l.tokens)) + 1 && lastsent(l.tokens).typ == tokenTypeError && closed(l.tokens)
 
 //@ func lexQuotedString
-//@   property C05 C06
+//@   property C05 C06 C04
 //@   owns sml.lexer, sml.token
 //@   modifies l.pos, l.start, l.width
 //@   requires lexOK(l) && l.start == l.pos && l.pos < len(l.input) && l.input[l.pos] == '"'
@@ -334,7 +334,7 @@ func specSizeOK(size int, lower int, upper int) bool {
 //@     invariant forall k int :: p0 + i <= k && k < p0 + nl ==> l.input[k] == ' ' || l.input[k] == 9 || l.input[k] == 13
 
 //@ func lexNumber
-//@   property C05 C06
+//@   property C05 C06 C04
 //@   owns sml.lexer, sml.token
 //@   modifies l.pos, l.start, l.width
 //@   requires lexOK(l) && l.start == l.pos
@@ -354,7 +354,7 @@ func specSizeOK(size int, lower int, upper int) bool {
 //@   ensures tok.typ == tokenTypeDataItemSize ==> lexOK(l) && l.start == l.pos
 
 //@ func lexMessageHeader
-//@   property C06 C08 C19
+//@   property C06 C08 C19 C04
 //@   owns sml.lexer, sml.token
 //@   modifies l.pos, l.start, l.width
 //@   requires lexOK(l)
@@ -430,7 +430,9 @@ var (
 func racPrintedFormsReparse() bool {
 	racPoolOnce.Do(func() {
 		racPoolOK = true
-		for _, m := range racMessagePool() {
+		pool := racMessagePool()
+		fmt.Println("GOVC-COUNT racPrintedFormsReparse messages printed and re-parsed:", len(pool))
+		for _, m := range pool {
 			if why := racReparses(m); why != "" {
 				racPoolOK = false
 				racPoolWhy = why
@@ -519,7 +521,9 @@ func racItemPool() []ast.ItemNode {
 	add(func() ast.ItemNode {
 		return ast.NewListNode(ast.NewIntNode(1, 1), ast.NewListNode(ast.NewASCIINode("x\"y"), ast.NewBooleanNode(true)), ast.NewListNode(), ast.NewUintNode(2, 7))
 	})
-	add(func() ast.ItemNode { return ast.NewListNode(ast.NewUintNode(1, "av"), "nv", "...[0]", ast.NewASCIINode("end")) })
+	add(func() ast.ItemNode {
+		return ast.NewListNode(ast.NewUintNode(1, "av"), "nv", "...[0]", ast.NewASCIINode("end"))
+	})
 	add(func() ast.ItemNode {
 		return ast.NewListNode(ast.NewListNode(ast.NewUintNode(1, "av"), "...[0]"), "...[1]", ast.NewListNode(ast.NewASCIINodeVariable("sv", 1, 2), "qv", "...[2]"))
 	})
